@@ -78,6 +78,22 @@ class WrapperModel(Model):
         self.assumed = []      # assumption notes (e.g. swallowed KeyError on victim delete)
 
     # -- helpers ---------------------------------------------------------------------------
+    def is_deque_class(self, f):
+        """a class of this module that extends collections.deque and overrides none of its queue operations"""
+        if f[0] != 'lib':
+            return False
+        nm = f[1].split('.')[-1]
+        for ci in getattr(self.module, 'classes_by_name', {}).get(nm, []):
+            bases = []
+            for b in ci.node.bases:
+                u = ast.unparse(b)
+                bases.append(self.module.imports.get(u, u).split('.')[-1])
+            own = getattr(ci, 'own_methods', None) or ci.methods
+            if 'deque' in bases and not any(m_ in own for m_ in ('append', 'appendleft', 'pop', 'popleft', 'clear', 'extend', 'extendleft', '__len__',
+                                                                  '__iter__', '__contains__', 'remove', '__init__', '__new__')):
+                return True
+        return False
+
     def newid(self):
         self.nev += 1
         return self.nev
@@ -198,7 +214,7 @@ class WrapperModel(Model):
         if f == ('lib', 'setattr') and len(args) == 3 and not kws and is_const(args[1]) and isinstance(args[1][1], str):
             return self.engine.attr_store(args[0], args[1][1], args[2], st, node)
         # --- container constructors (only meaningful in __call__)
-        if f[0] == 'lib' and f[1] in ('collections.deque', 'deque') or ln == 'deque':
+        if f[0] == 'lib' and f[1] in ('collections.deque', 'deque') or ln == 'deque' or self.is_deque_class(f):
             self.nbk += 1
             return [R(st, ('bk', 'Q%d' % self.nbk, 'deque'))]
         if self.is_counter_class(f):
